@@ -273,7 +273,8 @@ def parseFlags (flags : List String) : Flags :=
            stmtNotAtomicInSession := flags.contains "stmtNotAtomicInSession",
            indexNotMaintainedOnKeyUpdate := flags.contains "indexNotMaintainedOnKeyUpdate",
            indexOneEntryPerKey := flags.contains "indexOneEntryPerKey",
-           uniqueNotRecheckedAtCommit := flags.contains "uniqueNotRecheckedAtCommit" },
+           uniqueNotRecheckedAtCommit := flags.contains "uniqueNotRecheckedAtCommit",
+           commitChecksInsertedKeysOnly := flags.contains "commitChecksInsertedKeysOnly" },
     R := { abortedBitmap8192 := flags.contains "abortedBitmap8192",
            openTxnAtCloseSurvives := flags.contains "openTxnAtCloseSurvives",
            versionCounterU8 := flags.contains "versionCounterU8" },
@@ -282,7 +283,7 @@ def parseFlags (flags : List String) : Flags :=
 def defectNames : List String :=
   ["abortedBitmap8192", "openTxnAtCloseSurvives", "versionCounterU8", "updateKeepsInserterXmin", "writeSetNeverRecorded",
    "deleteMarkSingleSlot", "stmtNotAtomicInSession", "indexNotMaintainedOnKeyUpdate", "indexOneEntryPerKey",
-   "uniqueNotRecheckedAtCommit"]
+   "uniqueNotRecheckedAtCommit", "commitChecksInsertedKeysOnly"]
 
 /-- the observation the engine makes after every open and at the end: every table that should exist, every name that
     should not; `live` / `dead` are kept as the engine keeps them (from the outcomes of the DDL operations) -/
